@@ -621,6 +621,52 @@ static void adCheck(Prop& P, const std::string& key, F&& fEval, G&& fDouble, dou
 // linear interpolation written down here, independently of the table classes
 static double lerp(double a, double b, double t) { return a * (1.0 - t) + b * t; }
 
+static long gExtended = 0, gExtendedMasterNotNext = 0, gExtendedRows = 0;
+
+// Master-table extension, stated on the deck's numbers alone (independent of the PVT classes): a record that
+// has the saturated row only must behave as if it had the rows of the FIRST later record with under-saturated
+// rows ("master"), shifted in y to start at its own saturated row and scaled in B and in mu:
+//   y_j = y_0 + (M_j.y - M_0.y),  B_j = B_0 * M_j.B / M_0.B,  mu_j = mu_0 * M_j.mu / M_0.mu
+// (i.e. the same relative compressibility / viscosibility between consecutive rows as the master branch),
+// and between two such rows 1/B and 1/(B mu) are straight lines.
+template <class FB, class FM>
+static void extendLaws(Prop& P, vh::Rng& r, const std::string& kw, const std::vector<Record>& recs, size_t i,
+                       double yUnit, double bUnit, double muUnit, FB&& invBAtY, FM&& muAtY)
+{
+    if (recs[i].rows.size() != 1) return;
+    size_t m = i + 1;
+    while (m < recs.size() && recs[m].rows.size() < 2) ++m;
+    if (m >= recs.size()) return;                      // refused by the code; the generator never prints such a table
+    ++gExtended; gExtendedMasterNotNext += m != i + 1;
+    const auto& M = recs[m].rows;
+    const Row& s = recs[i].rows[0];
+    const double y0 = s.y * yUnit, B0 = s.B * bUnit, mu0 = s.mu * muUnit;
+    double py = y0, pB = B0, pmu = mu0;
+    for (size_t j = 1; j < M.size(); ++j) {
+        ++gExtendedRows;
+        const double y = y0 + (M[j].y - M[0].y) * yUnit;
+        const double B = B0 * (M[j].B / M[0].B), mu = mu0 * (M[j].mu / M[0].mu);
+        const std::string at = "rec " + std::to_string(i) + " (saturated row only) master rec " + std::to_string(m) + " (" +
+                               std::to_string(M.size()) + " rows) added row " + std::to_string(j) + " y=" + num(y);
+        const double gotB = 1.0 / invBAtY(y), gotMu = muAtY(y);
+        P.check(close(gotB, B, 1e-10), "extend." + kw + ".B", at + " B=" + num(gotB) + " expected B0*M_j.B/M_0.B=" + num(B));
+        P.check(close(gotMu, mu, 1e-10), "extend." + kw + ".mu", at + " mu=" + num(gotMu) + " expected mu0*M_j.mu/M_0.mu=" + num(mu));
+        // the master's relative compressibility between rows j-1, j:  (B_j - B_{j-1})/((B_j + B_{j-1})/2)
+        const double xM = (M[j].B - M[j - 1].B) / ((M[j].B + M[j - 1].B) / 2), gotPrev = 1.0 / invBAtY(py);
+        const double xE = (gotB - gotPrev) / ((gotB + gotPrev) / 2);
+        P.check(std::fabs(xE - xM) <= 1e-9 * std::max(1.0, std::fabs(xM)), "extend." + kw + ".compressibility", at + " x=" + num(xE) + " master x=" + num(xM));
+        const double xmM = (M[j].mu - M[j - 1].mu) / ((M[j].mu + M[j - 1].mu) / 2), gotPrevMu = muAtY(py);
+        const double xmE = (gotMu - gotPrevMu) / ((gotMu + gotPrevMu) / 2);
+        P.check(std::fabs(xmE - xmM) <= 1e-9 * std::max(1.0, std::fabs(xmM)), "extend." + kw + ".viscosibility", at + " xMu=" + num(xmE) + " master xMu=" + num(xmM));
+        // between the rows: straight lines in 1/B and 1/(B mu)
+        const double t = r.unit(), yq = py + (y - py) * t;
+        const double ob = lerp(1.0 / pB, 1.0 / B, t), om = ob / lerp(1.0 / (pB * pmu), 1.0 / (B * mu), t);
+        P.check(close(invBAtY(yq), ob, 1e-10), "extend." + kw + ".interp.invB", at + " t=" + num(t) + " 1/B=" + num(invBAtY(yq)) + " line " + num(ob));
+        P.check(close(muAtY(yq), om, 1e-10), "extend." + kw + ".interp.mu", at + " t=" + num(t) + " mu=" + num(muAtY(yq)) + " expected " + num(om));
+        py = y; pB = B; pmu = mu;
+    }
+}
+
 static void propDeck(vh::Rng& r, vh::PropLog& log, const DeckSpec& d, int deckNo)
 {
     Loaded L(d.text);
@@ -737,6 +783,7 @@ static void propDeck(vh::Rng& r, vh::PropLog& log, const DeckSpec& d, int deckNo
                         }
                     }
                 }
+                extendLaws(P, r, "pvto", recs, i, u.p, u.bo, u.mu, [&](double y) { return invB(y, rs); }, [&](double y) { return mu(y, rs); });
                 // saturated functions at the saturated nodes
                 const Row& s = recs[i].rows[0];
                 const double ps = s.y * u.p;
@@ -803,6 +850,7 @@ static void propDeck(vh::Rng& r, vh::PropLog& log, const DeckSpec& d, int deckNo
                         }
                     }
                 }
+                extendLaws(P, r, "pvtg", recs, i, u.rv, u.bg, u.mu, [&](double y) { return invB(p, y); }, [&](double y) { return mu(p, y); });
                 const Row& s = recs[i].rows[0];
                 const double rvs = s.y * u.rv;
                 P.check(close(L.gas.saturatedOilVaporizationFactor(reg, T0, p), rvs, tol, 1e-12 * recs.back().rows[0].y * u.rv), "node.pvtg.Rv", "rec " + std::to_string(i));
@@ -856,6 +904,18 @@ static void propTab1(vh::Rng& r, vh::PropLog& log, int cases)
                 if (x != x2)
                     chk(close((f.eval(x2) - f.eval(x)) / (x2 - x), f.evalDerivative(x), 1e-6, 1e-9), "t1.slope", "x=" + num(x) + " x2=" + num(x2));
             }
+        }
+        // the two extrapolated rays: the returned derivative is the slope of the ray, i.e. the chord slope of the
+        // end segment (theorem eval_hasDerivAt_extrapolated)
+        const double span = xs[n - 1] - xs[0];
+        for (int side = 0; side < 2; ++side) {
+            const double a = side ? xs[n - 1] + span * (0.01 + r.unit()) : xs[0] - span * (0.01 + r.unit());
+            const double b = side ? a + span * (0.1 + r.unit()) : a - span * (0.1 + r.unit());
+            const double chord = side ? (ys[n - 1] - ys[n - 2]) / (xs[n - 1] - xs[n - 2]) : (ys[1] - ys[0]) / (xs[1] - xs[0]);
+            const double dq = (f.eval(b, true) - f.eval(a, true)) / (b - a), de = f.evalDerivative(a, true);
+            const std::string where = std::string(side ? "right" : "left") + " of the table, n=" + std::to_string(n) + " x=" + num(a) + " x2=" + num(b);
+            chk(close(dq, de, 1e-6, 1e-9), "t1.slope.extrapolated", where + " difference quotient " + num(dq) + " evalDerivative " + num(de));
+            chk(close(de, chord, 1e-12, 1e-300), "t1.slope.extrapolated.chord", where + " evalDerivative " + num(de) + " end segment chord slope " + num(chord));
         }
     }
 }
@@ -1014,7 +1074,9 @@ int main(int argc, char** argv)
         st << "{\"checked\": " << log.checked << ", \"failed\": " << log.failed << ", \"decks\": " << decks
            << ", \"decks_with_3_or_more_regions\": " << multi << ", \"defaulted_region_tables\": " << dfl
            << ", \"defaulted_with_source_other_than_first_table\": " << dflNotFirst
-           << ", \"branches_with_7_or_more_rows\": " << longB << "}\n";
+           << ", \"branches_with_7_or_more_rows\": " << longB
+           << ", \"extended_branches\": " << gExtended << ", \"extended_with_master_not_the_next_record\": " << gExtendedMasterNotNext
+           << ", \"extended_rows_checked\": " << gExtendedRows << "}\n";
         return 0;
     }
     return 2;
